@@ -141,7 +141,7 @@ def ctor_rules(rep, prog):
     want = npred(("cmp", "!=", ("ext", "len", (("param", "mean"),), ()), ("ext", "len", (("param", "covariance"),), ())), True)
     hit = None
     for r in S4.select("raise", qname=f4.qname):
-        if r.exctype == "ValueError" and r.path and r.path[-1][1] is True and npred(strip_wrappers(r.path[-1][0]), True) == want:
+        if r.exctype == "ValueError" and r.path and npred(strip_wrappers(r.path[-1][0]), r.path[-1][1]) == want:
             hit = r
     if hit is None:
         rep.bad("GUARD.ctor", fwhere(f4), "no ValueError exactly when len(mean) != len(covariance)")
@@ -189,12 +189,13 @@ def run(prog, rep, tier):
     decided_wrong = set()         # guards whose condition was read completely and is not the wanted one
     for r in raises:
         last = r.path[-1] if r.path else None
-        if last is None or last[1] is not True:
+        if last is None:
             continue
-        p = npred(strip_wrappers(last[0]), True)
+        lc = strip_wrappers(last[0]) if last[1] is True else ("unop", "not", strip_wrappers(last[0]))      # the condition under which this raise is reached
+        p = npred(strip_wrappers(last[0]), last[1])
         if p == want_len:
             found["len"] = r
-        og = overlap_guard(strip_wrappers(last[0]))
+        og = overlap_guard(lc)
         if p in want_ov or og is True:
             found["overlap"] = r
         elif og is False:
